@@ -178,7 +178,13 @@ def fmt_value(ex, st, fref, spec, ty, vref, k):
                 return Call(ex.prog.items[name], [vr, fref], k)
             # Debug of user types: kept opaque (derived Debug is not the subject of any property)
     val = ex.read_ref(st, v) if isinstance(v, Ref) else v
-    outer = formatter_spec(ex, st, fref)
+    if spec == 'display' and isinstance(val, RString):
+        for seg in val.segs:
+            sink_append(ex, st, fref, seg)
+        return k(st, OK_UNIT)
+    if spec == 'display' and isinstance(val, StrLit):
+        sink_append(ex, st, fref, val.s)
+        return k(st, OK_UNIT)
     sink_append(ex, st, fref, ('val', spec, val))
     return k(st, OK_UNIT)
 
